@@ -80,9 +80,19 @@ PreFam == [k \in PreKeys |->
              { [part |-> "D", side |-> s, calg |-> a, haskey |-> 1, key |-> IF s = "builder" THEN [k EXCEPT !.priv = 1] ELSE k,
                 route |-> "pre", halg |-> a, sig |-> "valid"] : s \in {"checker", "builder"}, a \in ESAlgs \ {Native(k)} }]
 
+\* E: the object holds a default key K1 whose alg attribute pins its algorithm (setkey with no explicit algorithm,
+\* or with the matching one); the callback hands over ANOTHER key K2 of the same family that has no alg attribute and
+\* names no algorithm (route "cb-swap").  K1's attribute says nothing about K2.  halg = K1's attribute = the header's
+FamAlgs(k) == CASE k.kty = "oct" -> {"HS256", "HS512"} [] k.kty = "RSA" -> {"RS256", "PS256"} [] OTHER -> {Native(k)}
+SwapKeys == { k \in KeySet : k.alg = NONE }
+SwapCell(k, side, a, h) == [part |-> "E", side |-> side, calg |-> a, haskey |-> 1, key |-> IF side = "builder" THEN [k EXCEPT !.priv = 1] ELSE k,
+                            route |-> "cb-swap", halg |-> h, sig |-> IF side = "builder" THEN "empty" ELSE "valid"]
+SwapFam == [k \in SwapKeys |-> UNION { { SwapCell(k, sd, "none", h), SwapCell(k, sd, h, h) } : h \in FamAlgs(k), sd \in {"checker", "builder"} }]
+Dflt(c) == [OtherKey(c.key) EXCEPT !.alg = c.halg, !.priv = c.key.priv]
+
 \* ------------------------------------------------------------- scripts
 KeyOf(c) == IF c.side = "builder" /\ c.part = "A" THEN [c.key EXCEPT !.priv = 1] ELSE c.key
-Kds(c) == IF c.haskey = 1 THEN <<KeyOf(c)>> ELSE <<>>
+Kds(c) == IF c.route = "cb-swap" THEN <<Dflt(c), c.key>> ELSE IF c.haskey = 1 THEN <<KeyOf(c)>> ELSE <<>>
 Idx(c) == IF c.haskey = 1 THEN 0 ELSE -1
 SigOf(c) == CASE c.sig = "empty" -> EmptySig
               [] c.sig = "garbage" -> [Sig("garbage", "HS256", DummyKey) EXCEPT !.cls = "garbage"]
@@ -96,6 +106,7 @@ TokOf(c) == Tok(c.halg, <<>>, <<>>, SigOf(c))
 Prog(c) == CASE c.route = "cb-both" -> <<CbKey(Idx(c)), CbAlg(c.calg)>>
              [] c.route = "cb-key" -> <<CbKey(Idx(c))>>
              [] c.route = "cb-alg" -> <<CbAlg(c.calg)>>
+             [] c.route = "cb-swap" -> <<CbKey(1)>>
              [] OTHER -> <<>>
 ConfigOps(c) ==
   IF c.side = "checker"
@@ -103,10 +114,12 @@ ConfigOps(c) ==
                         [] c.route = "pre" -> <<CSetKeyOp(Native(c.key), 0), VerifyOp(Tok(Native(c.key), <<>>, <<>>, Sig("valid", Native(c.key), c.key))),
                                                 CSetKeyOp(c.calg, 0)>>
                         [] c.route = "cb-alg" -> <<CSetKeyOp("none", Idx(c)), CSetCbOp(Prog(c))>>
+                        [] c.route = "cb-swap" -> <<CSetKeyOp(c.calg, 0), CSetCbOp(Prog(c))>>
                         [] OTHER -> <<CSetCbOp(Prog(c))>>)
   ELSE <<BNewOp>> \o (CASE c.route = "setkey" -> <<BSetKeyOp(c.calg, Idx(c))>>
                         [] c.route = "pre" -> <<BSetKeyOp(Native(c.key), 0), GenerateOp(1), BSetKeyOp(c.calg, 0)>>
                         [] c.route = "cb-alg" -> <<BSetKeyOp("none", Idx(c)), BSetCbOp(Prog(c))>>
+                        [] c.route = "cb-swap" -> <<BSetKeyOp(c.calg, 0), BSetCbOp(Prog(c))>>
                         [] OTHER -> <<BSetCbOp(Prog(c))>>)
 Script(c) == (IF c.haskey = 1 THEN <<LoadOp(Kds(c))>> ELSE <<>>) \o ConfigOps(c)
              \o (IF c.side = "checker" THEN <<VerifyOp(TokOf(c))>> ELSE <<GenerateOp(0)>>)
@@ -116,9 +129,11 @@ Rs(c) == RingsOf(Kds(c))
 It(c) == ItemOf(Kds(c), Idx(c))
 Ck(c) == CASE c.route \in {"setkey", "pre"} -> CheckerWith(c.calg, It(c))
            [] c.route = "cb-alg" -> WithCb(CheckerWith("none", It(c)), Prog(c))
+           [] c.route = "cb-swap" -> WithCb(CheckerWith(c.calg, It(c)), Prog(c))
            [] OTHER -> WithCb(NewChecker, Prog(c))
 Bd(c) == CASE c.route \in {"setkey", "pre"} -> BuilderWith(c.calg, It(c))
            [] c.route = "cb-alg" -> WithCb(BuilderWith("none", It(c)), Prog(c))
+           [] c.route = "cb-swap" -> WithCb(BuilderWith(c.calg, It(c)), Prog(c))
            [] OTHER -> WithCb(NewBuilder, Prog(c))
 VRef(c) ==
   LET pt == ParseForge(TokOf(c)) cb == VerifyCfg(Ck(c), pt, Rs(c))
@@ -134,6 +149,7 @@ MCInit == /\ Init /\ done = FALSE
              \/ \E ak \in DOMAIN TokFam : cell \in TokFam[ak]
              \/ \E k \in DOMAIN GenFam : cell \in GenFam[k]
              \/ \E k \in DOMAIN PreFam : cell \in PreFam[k]
+             \/ \E k \in DOMAIN SwapFam : cell \in SwapFam[k]
 MCNext == done = FALSE /\ done' = TRUE /\ UNCHANGED <<cell, vars>>
 MCSpec == MCInit /\ [][MCNext]_<<cell, done, vars>>
 
